@@ -70,6 +70,10 @@ type Breach struct {
 	// Info marks an informational observation that is NOT part of the
 	// property statement's verdict.
 	Info bool `json:"info,omitempty"`
+	// OptCode / OptHex identify the offending reply option for the option
+	// rules (so a monitor that knows the upstream response can attribute it).
+	OptCode uint16 `json:"opt_code,omitempty"`
+	OptHex  string `json:"opt_hex,omitempty"`
 }
 
 func (b Breach) String() string { return b.Rule + ": " + b.Detail }
@@ -383,7 +387,9 @@ func Check(transport string, query, reply []byte, o Options) []Breach {
 
 		// options
 		if q.Decodable {
-			checkOptions(tr, q, ropts, o, add, info)
+			checkOptions(tr, q, ropts, o, add, info, func(code uint16, data []byte) {
+				out[len(out)-1].OptCode, out[len(out)-1].OptHex = code, hex.EncodeToString(data)
+			})
 		}
 	}
 
@@ -411,7 +417,7 @@ func Check(transport string, query, reply []byte, o Options) []Breach {
 }
 
 func checkOptions(tr string, q QueryFacts, ropts []dns.EDNS0, o Options,
-	add func(string, string, ...any), info func(string, string, ...any)) {
+	add func(string, string, ...any), info func(string, string, ...any), stamp func(uint16, []byte)) {
 	type qopt struct {
 		code uint16
 		data []byte
@@ -438,6 +444,8 @@ func checkOptions(tr string, q QueryFacts, ropts []dns.EDNS0, o Options,
 	for _, ro := range ropts {
 		code := ro.Option()
 		data := optData(ro)
+		add := func(rule, format string, a ...any) { add(rule, format, a...); stamp(code, data) }
+		info := func(rule, format string, a ...any) { info(rule, format, a...); stamp(code, data) }
 		switch code {
 		case dns.EDNS0SUBNET:
 			add("reflect-ecs", "client-subnet option in reply: %s", ro.String())
